@@ -1,8 +1,9 @@
 (* C06 / C07 / C08: the binding theorem for one index space.  For every item vector with pairwise distinct stored
-   ids, outside the known class D02 (import section order differs from the order of the import items), every live
-   item's id is mapped to the index at which Wasm's index rule (imports of that kind in import-section order, then
-   the locally defined ones in section order) finds that very item.  (Before the repair of D06 / D26 the theorem
-   needed two more premises: no deleted later-region import, no deleted converted original import.) *)
+   ids, provided the import section lists this kind's imports in the order of the import items (hypothesis noD02;
+   Proofs/ReidxInv.v proves it of every reachable state since the repair of D02), every live item's id is mapped to
+   the index at which Wasm's index rule (imports of that kind in import-section order, then the locally defined ones
+   in section order) finds that very item.  (Before the repair of D06 / D26 the theorem needed two more premises: no
+   deleted later-region import, no deleted converted original import.) *)
 From Coq Require Import List Arith NArith Bool Lia Permutation.
 Import ListNotations.
 From Orca Require Import Reindex Reorg ReidxProofs.
@@ -136,9 +137,9 @@ Proof.
   - intros a b Ha Hb E. apply filter_In in Ha as [Ha _]. apply filter_In in Hb as [Hb _]. apply (Hdisj b a Hb Ha). symmetry. exact E.
 Qed.
 
-(* [import_fps]: the fingerprints of this kind's live imports in import-section order.  Not D02 (and the import
-   list is linked to the items) = they come in the order of the import items of the index space.
-   Proofs/ReidxInv.v derives this premise, for every reachable state, from the executable predicate okD02. *)
+(* [import_fps]: the fingerprints of this kind's live imports in import-section order; [noD02] = they come in the
+   order of the import items of the index space.  Proofs/ReidxInv.v derives this premise for every reachable state
+   from the linkage invariant (the encoder fills the import slots of a kind in index order). *)
 Variable import_fps : list N.
 Hypothesis noD02 : import_fps = map it_fp Ipart.
 
